@@ -82,9 +82,20 @@ def main(argv=None):
 
     # ------------------------------------------------------------ verify the cone, one process per function
     jobs = [(f, prop, a.repo, a.tier) for f in P['functions']]
-    ctxmp = mp.get_context('fork')
-    with ctxmp.Pool(min(16, max(1, len(jobs)))) as pool:
-        results = pool.map(_worker, jobs, chunksize=1)
+    from pyvc.procpool import TimedOut, run_jobs
+    hard = 900 if a.tier == 'quick' else 3600
+    raw = run_jobs(_worker, jobs, min(16, max(1, len(jobs))), hard)
+    results = []
+    for job, r in zip(jobs, raw):
+        if isinstance(r, TimedOut):
+            # the solver did not come back within the hard limit: the function is undecided (outside what could be decided), never a verdict
+            results.append((job[0], dict(obligations={}, functions=[dict(function=job[0], unsupported=f'no answer within the hard limit of {hard}s')],
+                                         unsupported={job[0]: f'the solver did not return within the hard wall-clock limit of {hard}s'},
+                                         trusted_uses={}, solver_time=float(hard), queries=0, houdini={}), None))
+        elif isinstance(r, RuntimeError):
+            results.append((job[0], None, str(r)))
+        else:
+            results.append(r)
     obligations, functions, unsupported, crashes = {}, [], {}, {}
     lemmas, trusted_uses, solver_time, queries, houdini = {}, {}, 0.0, 0, {}
     cross = {}
